@@ -9,14 +9,15 @@ static rc::Gen<Case> case_gen() {
         int64_t mtu = *bnd({576, 576, 577, 1500, 1500, 1514, 9000, 9216, 1492, 1280, 578, 579, 580, 581}, 576, 9216, 4, 1);   // every residue of (MTU-36) mod 6, (MTU-34) mod 14 and mod 20 among the cheap ones
         int64_t own = 0x020000000000LL | *range<int64_t>(1, 0xFFFFFF);
         c.cfg = {mtu, *pick({0, 0, 1}), own, *pick({0, 0, 0, 1})};
-        c.blobs = {*bytes(0, 40), *bytes(0, 40), *bytes(0, 900), *bytes(0, 80), *bytes(0, 64)};
+        c.blobs = {*bytes(0, 40), *bytes(0, 40), *bytes(0, 900), *chance(25) ? *bytes(500, 2400) : *bytes(0, 80), *bytes(0, 64)};   // friendly name: sometimes longer than one (or four) frames
         Mac ownm = mac_from_u64((uint64_t)own);
         int n = *range<int>(1, 24);
         auto steps = *rc::gen::resize(n, rc::gen::container<std::vector<Op>>(rc::gen::exec([=] {
             Op o;
             int k = *range<int>(0, 11);
             if (k == 11) { o.kind = 13; o.a = {*bnd({15, 16, 17, 18, 33}, 1, 40, 3, 1), *pick({0, 1, 7}), *pick({0, 1})}; return o; }
-            if (k == 10) { o.kind = 12; o.a = {*bnd({26, 27, 28, 72, 73, 74, 75, 147, 459, 460}, 0, 500, 3, 1), *range<int64_t>(0, 1000), *pick({0, 1, 1})}; return o; }
+            if (k == 10) { o.kind = 12; o.a = {*bnd({26, 27, 28, 72, 73, 74, 75, 147, 459, 460, 1023, 1024, 1025, 1100}, 0, 500, 3, 1), *range<int64_t>(0, 1000), *pick({0, 1, 1}), *pick({1, 1, 2, 16, 40, 48})}; return o; }
+            if (k == 0 && *chance(50)) { o.kind = 14; o.a = {*pick({0x0E, 0x11, 0x11, 0x13}), *pick({1, 7, 0xFFFF}), *pick({0, 1, 1, 2, 3})}; return o; }
             if (k == 0) { o.kind = 10; return o; }
             if (k == 1) { o.kind = 11; o.a = {*bnd({0, 1, 999, 1000, 30000, 31000, 61000, 120000}, 0, 120000, 1, 1)}; return o; }
             o.kind = 9;
